@@ -124,9 +124,12 @@ Proofs/ArithInt.vos Proofs/ArithInt.vok Proofs/ArithInt.required_vos: Proofs/Ari
 Proofs/FloatKernels.vo Proofs/FloatKernels.glob Proofs/FloatKernels.v.beautified Proofs/FloatKernels.required_vo: Proofs/FloatKernels.v Model/GoInt.vo Model/F64.vo Model/Num.vo Gen/Arith_gen.vo
 Proofs/FloatKernels.vio: Proofs/FloatKernels.v Model/GoInt.vio Model/F64.vio Model/Num.vio Gen/Arith_gen.vio
 Proofs/FloatKernels.vos Proofs/FloatKernels.vok Proofs/FloatKernels.required_vos: Proofs/FloatKernels.v Model/GoInt.vos Model/F64.vos Model/Num.vos Gen/Arith_gen.vos
-Props/C07.vo Props/C07.glob Props/C07.v.beautified Props/C07.required_vo: Props/C07.v Model/GoInt.vo Model/F64.vo Model/Num.vo Gen/Arith_gen.vo Proofs/ArithInt.vo Proofs/FloatKernels.vo
-Props/C07.vio: Props/C07.v Model/GoInt.vio Model/F64.vio Model/Num.vio Gen/Arith_gen.vio Proofs/ArithInt.vio Proofs/FloatKernels.vio
-Props/C07.vos Props/C07.vok Props/C07.required_vos: Props/C07.v Model/GoInt.vos Model/F64.vos Model/Num.vos Gen/Arith_gen.vos Proofs/ArithInt.vos Proofs/FloatKernels.vos
+Proofs/FloatToInt.vo Proofs/FloatToInt.glob Proofs/FloatToInt.v.beautified Proofs/FloatToInt.required_vo: Proofs/FloatToInt.v Model/GoInt.vo Model/F64.vo Model/Num.vo Gen/Arith_gen.vo
+Proofs/FloatToInt.vio: Proofs/FloatToInt.v Model/GoInt.vio Model/F64.vio Model/Num.vio Gen/Arith_gen.vio
+Proofs/FloatToInt.vos Proofs/FloatToInt.vok Proofs/FloatToInt.required_vos: Proofs/FloatToInt.v Model/GoInt.vos Model/F64.vos Model/Num.vos Gen/Arith_gen.vos
+Props/C07.vo Props/C07.glob Props/C07.v.beautified Props/C07.required_vo: Props/C07.v Model/GoInt.vo Model/F64.vo Model/Num.vo Gen/Arith_gen.vo Proofs/ArithInt.vo Proofs/FloatKernels.vo Proofs/FloatToInt.vo
+Props/C07.vio: Props/C07.v Model/GoInt.vio Model/F64.vio Model/Num.vio Gen/Arith_gen.vio Proofs/ArithInt.vio Proofs/FloatKernels.vio Proofs/FloatToInt.vio
+Props/C07.vos Props/C07.vok Props/C07.required_vos: Props/C07.v Model/GoInt.vos Model/F64.vos Model/Num.vos Gen/Arith_gen.vos Proofs/ArithInt.vos Proofs/FloatKernels.vos Proofs/FloatToInt.vos
 Proofs/Promise.vo Proofs/Promise.glob Proofs/Promise.v.beautified Proofs/Promise.required_vo: Proofs/Promise.v Model/Term.vo Model/Unify.vo Model/Clause.vo Model/Machine.vo
 Proofs/Promise.vio: Proofs/Promise.v Model/Term.vio Model/Unify.vio Model/Clause.vio Model/Machine.vio
 Proofs/Promise.vos Proofs/Promise.vok Proofs/Promise.required_vos: Proofs/Promise.v Model/Term.vos Model/Unify.vos Model/Clause.vos Model/Machine.vos
@@ -136,9 +139,12 @@ Proofs/Trampoline.vos Proofs/Trampoline.vok Proofs/Trampoline.required_vos: Proo
 Proofs/FuelMono.vo Proofs/FuelMono.glob Proofs/FuelMono.v.beautified Proofs/FuelMono.required_vo: Proofs/FuelMono.v Model/Term.vo Model/Unify.vo Model/Clause.vo Model/Machine.vo
 Proofs/FuelMono.vio: Proofs/FuelMono.v Model/Term.vio Model/Unify.vio Model/Clause.vio Model/Machine.vio
 Proofs/FuelMono.vos Proofs/FuelMono.vok Proofs/FuelMono.required_vos: Proofs/FuelMono.v Model/Term.vos Model/Unify.vos Model/Clause.vos Model/Machine.vos
-Props/C01.vo Props/C01.glob Props/C01.v.beautified Props/C01.required_vo: Props/C01.v Model/Term.vo Model/Unify.vo Model/Clause.vo Model/Machine.vo Proofs/Promise.vo Proofs/Trampoline.vo Proofs/FuelMono.vo
-Props/C01.vio: Props/C01.v Model/Term.vio Model/Unify.vio Model/Clause.vio Model/Machine.vio Proofs/Promise.vio Proofs/Trampoline.vio Proofs/FuelMono.vio
-Props/C01.vos Props/C01.vok Props/C01.required_vos: Props/C01.v Model/Term.vos Model/Unify.vos Model/Clause.vos Model/Machine.vos Proofs/Promise.vos Proofs/Trampoline.vos Proofs/FuelMono.vos
+Proofs/ForceComplete.vo Proofs/ForceComplete.glob Proofs/ForceComplete.v.beautified Proofs/ForceComplete.required_vo: Proofs/ForceComplete.v Model/Term.vo Model/Unify.vo Model/Clause.vo Model/Machine.vo Proofs/Promise.vo Proofs/Trampoline.vo Proofs/FuelMono.vo
+Proofs/ForceComplete.vio: Proofs/ForceComplete.v Model/Term.vio Model/Unify.vio Model/Clause.vio Model/Machine.vio Proofs/Promise.vio Proofs/Trampoline.vio Proofs/FuelMono.vio
+Proofs/ForceComplete.vos Proofs/ForceComplete.vok Proofs/ForceComplete.required_vos: Proofs/ForceComplete.v Model/Term.vos Model/Unify.vos Model/Clause.vos Model/Machine.vos Proofs/Promise.vos Proofs/Trampoline.vos Proofs/FuelMono.vos
+Props/C01.vo Props/C01.glob Props/C01.v.beautified Props/C01.required_vo: Props/C01.v Model/Term.vo Model/Unify.vo Model/Clause.vo Model/Machine.vo Proofs/Promise.vo Proofs/Trampoline.vo Proofs/FuelMono.vo Proofs/ForceComplete.vo
+Props/C01.vio: Props/C01.v Model/Term.vio Model/Unify.vio Model/Clause.vio Model/Machine.vio Proofs/Promise.vio Proofs/Trampoline.vio Proofs/FuelMono.vio Proofs/ForceComplete.vio
+Props/C01.vos Props/C01.vok Props/C01.required_vos: Props/C01.v Model/Term.vos Model/Unify.vos Model/Clause.vos Model/Machine.vos Proofs/Promise.vos Proofs/Trampoline.vos Proofs/FuelMono.vos Proofs/ForceComplete.vos
 Props/C03.vo Props/C03.glob Props/C03.v.beautified Props/C03.required_vo: Props/C03.v Model/Term.vo Model/Unify.vo Model/Clause.vo Model/Machine.vo Proofs/Promise.vo Proofs/Trampoline.vo Model/Boot.vo
 Props/C03.vio: Props/C03.v Model/Term.vio Model/Unify.vio Model/Clause.vio Model/Machine.vio Proofs/Promise.vio Proofs/Trampoline.vio Model/Boot.vio
 Props/C03.vos Props/C03.vok Props/C03.required_vos: Props/C03.v Model/Term.vos Model/Unify.vos Model/Clause.vos Model/Machine.vos Proofs/Promise.vos Proofs/Trampoline.vos Model/Boot.vos
